@@ -18,7 +18,10 @@ import (
 // handling care about: more double than single quotes (=> single-quoted output) with and without
 // a backslash, the reverse, ties, a trailing backslash
 var c04Strings = []string{"", "a", "123", "1b", "1.5", "true", "a b", `a"b`, `a'b`, `a\b`, "[", "é",
-	`q"\z`, `"\`, `\"`, `'"\"`, `'\`, `"'`}
+	`q"\z`, `"\`, `\"`, `'"\"`, `'\`, `"'`,
+	// digit-only names and values at and beyond the Int range (a writer that leaves them bare
+	// meets the parser's range check)
+	"0", "2147483647", "2147483648", "99999999999999999999"}
 
 func f32s(fs ...float32) []uint32 {
 	out := make([]uint32, len(fs))
